@@ -154,7 +154,7 @@ pub fn check_note(l0: &Lib, ext: &str, key: &str) -> Option<String> {
                     }
                     // a piped wiki reference carries its own text, which goes away with the reference
                     if let Some(l) = md::read(&text0, &dir).links.iter().find(|l| l.line == line as usize && l.block_level && l.kind == "wikiPiped") {
-                        for w in l.text.split_whitespace() {
+                        for w in l.text.replace(crate::oracle::md::MARKUP, "").split_whitespace() {
                             if let Some(i) = before.iter().position(|p| p == w) {
                                 before.remove(i);
                             }
